@@ -118,12 +118,33 @@ void run_exact(vh::Case& c) {
     c.log(o.str());
   }
   c.count("cmp.exact.complex"); c.count("cmp.exact.simplex", want.size());
+  // The property does not prescribe the construction (only: subcomplex of the Rips complex, never earlier, interleaving guarantee):
+  // a difference with the documented construction is COUNTED, never reported; what is judged on these exact inputs is below
+  // (subcomplex / never earlier / closed under faces / monotone) and, in the other units, the guarantee itself.
+  bool differs = false;
   for (auto& kv : want) {
     auto it = S.find(kv.first);
-    if (it == S.end()) { c.violation("exact.equals_documented_construction", sig + ",missing_simplex,simplex_dim=" + vh::str(kv.first.size() - 1), "simplex " + oracle::show(kv.first) + " (value " + vh::str(kv.second) + ") of the documented construction is not in the complex"); return; }
-    if (it->second != kv.second) { c.violation("exact.equals_documented_construction", sig + ",value_differs,simplex_dim=" + vh::str(kv.first.size() - 1), "simplex " + oracle::show(kv.first) + " has value " + vh::str(it->second) + ", documented construction: " + vh::str(kv.second)); return; }
+    if (it == S.end()) { c.count("info.exact.differs_from_documented_construction.missing_simplex"); differs = true; }
+    else if (it->second != kv.second) { c.count("info.exact.differs_from_documented_construction.value_differs"); differs = true; }
   }
-  for (auto& kv : S) if (!want.count(kv.first)) { c.violation("exact.equals_documented_construction", sig + ",extra_simplex,simplex_dim=" + vh::str(kv.first.size() - 1), "simplex " + oracle::show(kv.first) + " (value " + vh::str(kv.second) + ") is not in the documented construction"); return; }
+  for (auto& kv : S) if (!want.count(kv.first)) { c.count("info.exact.differs_from_documented_construction.extra_simplex"); differs = true; }
+  if (!differs) c.count("info.exact.equals_documented_construction");
+  // what the property does state, decided exactly on these inputs (all arithmetic is exact): every vertex is there, every simplex has at
+  // most dim_max+1 vertices, is never earlier than in the Rips filtration (= its diameter), the complex is closed under faces and monotone
+  for (int v = 0; v < n; ++v) if (!S.count(Simplex{(long)v})) { c.violation("exact.vertex_missing", sig, "vertex " + vh::str(v) + " is not in the sparse complex"); return; }
+  for (auto& kv : S) {
+    const Simplex& sx = kv.first;
+    if ((int)sx.size() > dim_max + 1) { c.violation("exact.dimension_above_dim_max", sig, oracle::show(sx)); return; }
+    double diam = 0; for (size_t a = 0; a < sx.size(); ++a) for (size_t b = a + 1; b < sx.size(); ++b) diam = std::max(diam, D[sx[a]][sx[b]]);
+    if (kv.second < diam) { c.violation("exact.earlier_than_rips", sig + ",simplex_dim=" + vh::str(sx.size() - 1), "simplex " + oracle::show(sx) + " has value " + vh::str(kv.second) + " < its diameter " + vh::str(diam)); return; }
+    if (sx.size() >= 2) for (size_t a = 0; a < sx.size(); ++a) {
+      Simplex f(sx); f.erase(f.begin() + a);
+      auto itf = S.find(f);
+      if (itf == S.end()) { c.violation("exact.not_closed_under_faces", sig, "face " + oracle::show(f) + " of " + oracle::show(sx) + " is missing"); return; }
+      if (itf->second > kv.second) { c.violation("exact.not_monotone", sig, "face " + oracle::show(f) + " (" + vh::str(itf->second) + ") appears after " + oracle::show(sx) + " (" + vh::str(kv.second) + ")"); return; }
+    }
+  }
+  c.count("cmp.exact.valid_subfiltration_of_rips");
   // state classes: size against the full complex, an edge later than its length, a clique of the edge graph removed by a dead vertex
   size_t full = 0; for (int k = 1; k <= dim_max + 1; ++k) { double b = 1; for (int t = 0; t < k; ++t) b = b * (n - t) / (t + 1); full += (size_t)(b + 0.5); }
   bool raised = false; for (auto& kv : S) if (kv.first.size() == 2 && kv.second > D[kv.first[0]][kv.first[1]]) raised = true;
